@@ -161,6 +161,8 @@ pub struct Segment {
     pub mid_cs: bool,
     /// ... and which agent at which `InCs` site.
     pub mid: Option<(Aid, u32)>,
+    /// Fine-grained mode: agents that parked at a `Between` site (outside any critical section) in this segment.
+    pub between: Vec<(Aid, u32)>,
 }
 
 impl Segment {
@@ -169,6 +171,9 @@ impl Segment {
         let mut v = Vec::with_capacity(self.steps.len() * 2 + 4);
         if let Some((a, site)) = self.mid {
             v.push(TraceLine::M(format!("{} {}", a, site)));
+        }
+        for (a, site) in &self.between {
+            v.push(TraceLine::N(format!("{} {}", a, site)));
         }
         for (l, o) in &self.steps {
             v.push(TraceLine::L(l.text()));
@@ -340,6 +345,12 @@ impl Executor {
             return Err("the container was consumed".into());
         }
         let pre = self.last_snap.clone();
+        let pre_between: Vec<Aid> = self
+            .agents
+            .iter()
+            .filter(|a| matches!(a.state, AState::Parked(Site::Between(_))))
+            .map(|a| a.aid)
+            .collect();
         let (steps, events) = match *action {
             Action::Start(call) => self.do_start(call)?,
             Action::Resume(aid) => self.do_resume(aid)?,
@@ -437,6 +448,14 @@ impl Executor {
                 AState::Parked(Site::InCs(id)) if a.alive() => Some((a.aid, id)),
                 _ => None,
             }),
+            between: self
+                .agents
+                .iter()
+                .filter_map(|a| match a.state {
+                    AState::Parked(Site::Between(id)) if a.alive() && !pre_between.contains(&a.aid) => Some((a.aid, id)),
+                    _ => None,
+                })
+                .collect(),
         };
         let hits = self.monitors.observe(&seg);
         self.violations.extend(hits);
